@@ -14,11 +14,13 @@ use std::panic::AssertUnwindSafe;
 use std::sync::atomic::{AtomicU64, Ordering};
 use std::sync::Arc;
 
-pub const NAMES: [&str; 21] = [
+pub const NAMES: [&str; 26] = [
     "a", "", "0", "7", "+5", "-1", "0007", "18446744073709551615", "18446744073709551616", " 5", "5 ", "0x1",
     "٣", "x-y", "+", "+-5",
     // spellings longer than the digit count of usize::MAX whose VALUE still fits (or not)
     "+18446744073709551615", "000000000000000000000000000001", "018446744073709551615", "+018446744073709551616", "1_000",
+    // more sign shapes
+    "++5", "5+", "+ 5", "++", "-0",
 ];
 
 pub fn push_lists() -> Vec<Vec<R>> {
@@ -259,7 +261,7 @@ pub fn replay_case(c: &J) -> Result<(), String> {
 pub fn run(run: &Run) {
     run.rule(
         "initial states: one term per constructor (images at index 0/1/n and empty); actions: \
-         set_atom_name over 21 strings (empty, signed, leading zeros, usize::MAX, overflow, padded, \
+         set_atom_name over 26 strings (empty, signed, leading zeros, usize::MAX, overflow, padded, \
          hex, non-ASCII digit, dashed) and push_components over 7 lists (empty, 1, 2, duplicate, \
          existing element, placeholder, compound); stateright BFS to depth 3 (5 thorough) over the \
          real term, deduplicated on its canonical form; every transition compared with the \
